@@ -1333,7 +1333,28 @@ def ob_exec_drop(ctx, tier):
                 c.fail("schedule_order_spawn_insert_schedule", p)
             if sc and sc[0].guards:
                 c.fail("task_table_borrowed_while_scheduling", p)
-    return c.res(paths + p2, cfg)
+    # StoreOnDrop::drop: the wrapper future's guard. Table gone => nothing; value present => the entry AT ITS OWN INDEX
+    # is overwritten (Finished) and nothing is removed; value absent (future dropped early) => exactly that entry is removed
+    f3, p3, cfg3 = run_fn(ctx, r"::drop\(_1: &mut StoreOnDrop", unroll=0)
+    for p in p3:
+        if p.status != "return":
+            continue
+        tk = [e for e in p.trace if e.kind == "take"]
+        rm = calls(p, r"Slab::<.*>::remove$")
+        ix = calls(p, r"IndexMut<usize>>::index_mut$")
+        if not tk:
+            if rm or ix:
+                c.fail("store_on_drop_touches_a_destroyed_table", p)
+            continue
+        has = entails(ctx, p.pc, dz(tk[0].ret.disc) == 1)[0]
+        if has and (len(ix) != 1 or rm or "a1_0" not in repr(ix[0].args[1])):
+            c.fail("finished_value_not_stored_at_its_own_index", p)
+        if not has and (len(rm) != 1 or ix or "a1_0" not in repr(rm[0].args[1])):
+            c.fail("dropped_future_entry_not_removed", p)
+        for e in rm + ix:
+            if not e.guards:
+                c.fail("task_table_touched_without_borrow", p)
+    return c.res(paths + p2 + p3, cfg)
 
 
 STREAM_CL = r"::process_events::\{closure#0\}\(_1: &mut \{closure@src/sources/stream"
@@ -1990,3 +2011,43 @@ def ob_timer_stale(ctx, tier):
         if not arming and not ctr_cmp:
             c.fail("stale_event_of_previous_arming_accepted", p)
     return c.res(paths, cfg)
+
+
+# ---------------------------------------------------------------- C16: delegation of registration
+def ob_delegation(ctx, tier):
+    """ping, channel, executor, stream and signals sources register / reregister / unregister by
+    delegating exactly once to the Generic (or ping source) they wrap, with the caller's poll and
+    token factory, and return its result -- so K's facts about Generic and the poller table carry
+    over to them"""
+    c = Chk()
+    allp = []
+    cfg = None
+    targets = [("eventfd::PingSource", r"&mut eventfd::PingSource"), ("Channel", r"&mut Channel<T>"), ("Executor", r"&mut Executor<T>"),
+               ("StreamSource", r"&mut StreamSource<S>"), ("Signals", r"&mut signals::Signals")]
+    for nm, ty in targets:
+        for meth, nargs in (("register", 3), ("reregister", 3), ("unregister", 2)):
+            try:
+                f, paths, cfg = run_fn(ctx, r"::%s\(_1: %s, " % (meth, ty))
+            except Unsupported:
+                if nm == "Signals":
+                    continue
+                raise
+            allp += paths
+            for p in paths:
+                if p.status != "return":
+                    continue
+                inner = [e for e in p.trace if e.kind == "call" and re.search(r" as (sources::)?EventSource>::%s$" % meth, e.callee)]
+                if len(inner) != 1:
+                    c.fail("%s_%s_does_not_delegate_exactly_once" % (nm, meth), p)
+                    continue
+                c.witness = True
+                e = inner[0]
+                if "a2" not in repr(e.args[1]) or (nargs == 3 and "a3" not in repr(e.args[2])):
+                    c.fail("%s_%s_delegates_with_other_arguments" % (nm, meth), p)
+                if "a1" not in repr(e.args[0]):
+                    c.fail("%s_%s_delegates_to_something_else" % (nm, meth), p)
+                ok_inner = entails(ctx, p.pc, dz(e.ret.disc) == 0)[0]
+                if isinstance(p.ret, Enum) and isinstance(p.ret.disc, int):
+                    if ok_inner != (p.ret.disc == 0):
+                        c.fail("%s_%s_does_not_return_the_inner_result" % (nm, meth), p)
+    return c.res(allp, cfg)
